@@ -243,6 +243,9 @@ def run(ctx):
 
     session_state(ctx, "R15-d")
     accumulated_state_is_write_only(ctx, "R15-g")
+    input_paths_are_canonical(ctx, "R15-h")
+    import c11
+    c11.names_are_ordered_by_their_text(ctx, "R15-i")     # shared with C11: an order by interner index depends on what was lexed before
 
     import c05
     c05.check_input_loop(ctx, "R15-e")
@@ -445,3 +448,33 @@ def accumulated_state_is_write_only(ctx, rid):
         r.violation(rid, "should_skip_module consults %s" % short(odd[0].name),
                     "which files are formatted depends on something besides the skip attribute, skip_children, the ignore list and "
                     "@generated", [odd[0].loc()])
+
+
+def input_paths_are_canonical(ctx, rid):
+    """R15-h: a file named on the command line is known by its canonical path, like the directory its configuration came from"""
+    p, r = ctx.p, ctx.r
+    r.rule(rid, "sibling agreement on path spelling: the configuration of a file is looked up from the *canonical* directory "
+                "(config::get_toml_path / resolve_project_file canonicalise), and that directory is the root the `ignore` "
+                "patterns are matched under. So every path that rustfmt::determine_operation turns into an input file is the "
+                "result of `Path::canonicalize` — the path as typed only on its error edge (`unwrap_or(p)`). A path that is merely "
+                "made absolute keeps `..` and symbolic links: `../src/gen.rs` from a sibling directory no longer starts with "
+                "the ignore root, and the same file is skipped from one working directory and formatted from another")
+    fam = [f for f in p.fns.values() if f.crate == "rustfmt" and (f.root or f.id) == "rustfmt::determine_operation"]
+    makers = [f for f in fam if f.locals[0] == "std::path::PathBuf"]
+    for f in makers:
+        d = f.derived_from(0)
+        canon = [c for c in d["calls"] if c.name.endswith("Path::canonicalize") or c.name.endswith("fs::canonicalize")]
+        other = [c for c in d["calls"] if c.name.endswith("path::absolute") or c.name.endswith("env::current_dir")]
+        ok = bool(canon) and not other
+        r.instance(rid, "%s: input path" % short(f.id), "ok" if ok else "violation", "%s:%d" % (f.file, f.line),
+                   "derives from canonicalize: %s%s" % (bool(canon), (", also from %s" % [short(c.name) for c in other]) if other else ""))
+        if not ok:
+            r.violation(rid, "determine_operation stores an input path that is not canonical",
+                        "the PathBuf built by %s %s: the ignore list and the per-directory configuration are resolved from "
+                        "canonical directories, so the result depends on how the path was typed and on the working directory"
+                        % (short(f.id), "does not derive from Path::canonicalize" if not canon else
+                           "derives from %s" % [short(c.name) for c in other]), ["%s:%d" % (f.file, f.line)])
+    cfg = [c for c in p.all_calls() if c.fn.crate == "rustfmt_nightly" and "::config::" in c.fn.id
+           and (c.name.endswith("fs::canonicalize") or c.name.endswith("Path::canonicalize"))]
+    r.floor(rid, len(makers), 1, "closures of determine_operation that build an input path")
+    r.floor(rid, len(cfg), 2, "canonicalize calls in the configuration lookup")
